@@ -1044,3 +1044,313 @@ def verify_no_modification(run):
     err, fin, task = Const('err', Val), Const('finalized', BoolSort()), Const('simtask', Val)
     run.lemma('after_the_end/no_restart_and_no_modification', [err != Val.VNone, task != Val.VNone],
               And(Or(err != Val.VNone, fin), task != Val.VNone))
+
+
+# ---- AddonMainTask: the block's main task lives from start() to stop_async() ---------------------------------------------------------------------
+declare_fields(_mtask=VAL)
+QA = 'edzed.addons:AddonMainTask.'
+
+
+def amt_super_start(ex, e, st):
+    st = st.copy(); ex.emit(st, rec('super.start', to_val(st.env['self'], st)))
+    return [(st, P_NONE)]
+
+
+def amt_maintask_call(ex, e, st):
+    me = as_kind(st.env['self'], Ref(), st)
+    c = coro_of(StringVal('_maintask'), me)
+    st = st.copy(); st.assume(coro_name(c) == StringVal('_maintask'), coro_recv(c) == me)
+    return [(st, ZV('val', c))]
+
+
+def amt_create_monitored(ex, e, st):
+    outs = []
+    for s1, cv in ex.ev(e.args[0], st):
+        s1 = s1.copy(); t = fresh('task', IntSort())
+        svc = [k.value for k in e.keywords if k.arg == 'is_service']
+        is_service = bool(svc and isinstance(svc[0], ast.Constant) and svc[0].value is True)
+        s1.assume(task_coro(t) == to_val(cv, s1), Not(s1.readz('task_done', t)))
+        ex.emit(s1, rec('create_monitored_task', Val.Obj(t), to_val(cv, s1), a1=Val.B(BoolVal(is_service))))
+        outs.append((s1, ZV('val', Val.Obj(t))))
+    return outs
+
+
+@contract('AddonMainTask.start', qual=QA + 'start', modifies=('_mtask',), self_cls='AddonMainTask')
+def _amt_start(c):
+    me = c.z('self')
+    c.requires('not_started_yet', c.pre('_mtask', me) == Val.VNone)
+    t = c.post('_mtask', me)
+    c.ensures('the_main_task_is_remembered', And(Val.is_Obj(t), task_coro(Val.ref(t)) == coro_of(StringVal('_maintask'), me)))
+    if c.verifying:
+        def expected(k, r, st):
+            fn = z3.simplify(Rec.fn(r)).as_string()
+            if fn == 'super.start': return [('inherited_start_first', k == 0)]
+            if fn == 'create_monitored_task':
+                return [('one_monitored_service_task_for_the_main_coroutine',
+                         And(k == 1, Rec.a0(r) == coro_of(StringVal('_maintask'), me), Rec.a1(r) == Val.B(BoolVal(True))))]
+            return [('no_other_call', BoolVal(False))]
+        c.expect_trace(expected, 2, normal_len=2, predicate=True)
+
+
+def amt_await_mtask(ex, node, st):
+    """`await self._mtask` after cancel(): the task ends (cancelled, or with an error of its own)"""
+    me = as_kind(st.env['self'], Ref(), st)
+    t = Val.ref(st.readz('_mtask', me))
+    outs = []
+    for cls in ('CancelledError', None, 'OtherException'):
+        s2 = st.copy()
+        for f in ('task_done', 'task_cancelled', 'task_exception'): s2.havoc_field(f)
+        impose_tasks_stay_done(View(st), View(s2))
+        s2.assume(s2.readz('task_done', t)); s2.ghost['awaited'] = True
+        if cls is None: outs.append((s2, P_NONE))
+        else:
+            s2.label(f'mtask:{cls}')
+            outs.append((s2, Raise(PExc(cls, val=Val.Obj(fresh('exc', IntSort())), where='callee'))))
+    return outs
+
+
+def amt_super_stop_async(ex, node, st):
+    st = st.copy(); ex.emit(st, rec('super.stop_async', to_val(st.env['self'], st)))
+    return [(st, P_NONE)]
+
+
+@contract('AddonMainTask.stop_async', qual=QA + 'stop_async', modifies=('_mtask', 'cancel_requested', 'task_done', 'task_cancelled', 'task_exception'),
+          self_cls='AddonMainTask')
+def _amt_stop_async(c):
+    me = c.z('self')
+    t0 = c.pre('_mtask', me)
+    c.requires('started', Val.is_Obj(t0))
+    done = lambda post: And(post.f('_mtask', me) == Val.VNone, post.f('task_done', Val.ref(t0)), post.f('cancel_requested', Val.ref(t0)))
+    c.ensures('the_main_task_was_cancelled_and_has_ended', done(c.T))
+    c.raises('OtherException', unchanged=False, label='the_main_task_had_failed', ensures=lambda post, exc: [done(post)])
+    if c.verifying:
+        def expected(k, r, st):
+            fn = z3.simplify(Rec.fn(r)).as_string()
+            if fn == 'cancel': return [('cancel_the_main_task_first', And(k == 0, Rec.recv(r) == t0))]
+            if fn == 'super.stop_async': return [('inherited_cleanup_after_the_task_has_ended', And(k == 1, BoolVal(st.ghost.get('awaited') is True)))]
+            return [('no_other_call', BoolVal(False))]
+        c.expect_trace(expected, 2, normal_len=2, predicate=True)
+
+
+def verify_maintask_addon(run):
+    run.verify('AddonMainTask.start', cls='AddonMainTask', hooks={'opaque_fstrings': True},
+               calls={'super().start': amt_super_start, 'self._maintask': amt_maintask_call, 'self._create_monitored_task': amt_create_monitored})
+    run.verify('AddonMainTask.stop_async', cls='AddonMainTask', ghost={'awaited': False}, hooks={'opaque_fstrings': True,
+               'await': awaits({'self._mtask': amt_await_mtask, 'super().stop_async()': amt_super_stop_async})})
+
+
+# ---- edzed.run(): the simulation plus supporting coroutines ----------------------------------------------------------------------------------------
+sup_task = Function('sup_task', IntSort(), IntSort())            # the task created for the i-th supporting coroutine (i >= 1)
+RUN_SIM = Int('run_simtask')
+
+
+def run_get_circuit(ex, e, st):
+    return [(st, ZV('ref', CIRC, 'Circuit'))]
+
+
+def run_with_signal(ex, st, cm, phase, token, item):
+    """with _TerminatingSignal(...): installs / restores a signal handler (trusted: signal module); never swallows exceptions"""
+    if phase == 'enter': return [(st, ('token', P_NONE))]
+    return [(st, P_NONE)]
+
+
+def run_terminating_signal(ex, e, st):
+    return [(st, PConst(PyObjStub()))]
+
+
+def run_forever_coro(ex, e, st):
+    c = coro_of(StringVal('run_forever'), CIRC)
+    return [(st, ZV('val', c))]
+
+
+def run_create_simtask(ex, e, st):
+    st = st.copy()
+    st.assume(Not(st.readz('task_done', RUN_SIM)))
+    st.heap['_simtask'] = Store(st.comp('_simtask', Val), CIRC, Val.Obj(RUN_SIM))      # run_forever records its task when it starts
+    return [(st, ZV('val', Val.Obj(RUN_SIM)))]
+
+
+def run_env(ex, st):
+    """an await of run(): other tasks (the simulation task, the supporting tasks) run"""
+    post = st.copy()
+    for f in ENV_FIELDS: post.havoc_field(f)
+    S, T = View(st), View(post)
+    impose_error_write_once(S, T); impose_errors_are_exceptions(S, T); impose_tasks_stay_done(S, T)
+    # contract of run_forever: the simulation task ends by raising Circuit.error
+    post.assume(Implies(T.f('task_done', RUN_SIM), And(T.f('_error', CIRC) != Val.VNone, T.f('task_exception', RUN_SIM) == T.f('_error', CIRC))))
+    return post
+
+
+def run_sleep0(ex, node, st):
+    return [(run_env(ex, st), P_NONE)]
+
+
+def run_wait_first(ex, node, st):
+    s2 = run_env(ex, st)
+    i = Int('i!rw'); n = s2.ghost['n_tasks']
+    s2.assume(Or(s2.readz('task_done', RUN_SIM), Exists([i], And(1 <= i, i < n, s2.readz('task_done', sup_task(i))))))
+    return [(s2, P_NONE)]
+
+
+def run_extend(ex, e, st):
+    """all_tasks.extend(create_task(coro) for i, coro in enumerate(coroutines, start=1)): one new task per supporting coroutine"""
+    st = st.copy()
+    arr, n = seq_of(st.env['coroutines'], st)
+    j = Int('j!re')
+    st.assume(n >= 1, ForAll([j], Implies(And(1 <= j, j <= n), And(sup_task(j) != RUN_SIM, task_coro(sup_task(j)) == arr[j - 1]))))
+    st.env['all_tasks'] = PSeq(z3.Lambda([j], If(j == 0, Val.Obj(RUN_SIM), Val.Obj(sup_task(j)))), n + 1, 'val', True)
+    st.ghost['n_tasks'] = n + 1
+    ex.emit(st, rec('create_supporting_tasks', a0=Val.I(n)))
+    return [(st, P_NONE)]
+
+
+def run_result_call(ex, e, st):
+    """simtask.result() of a finished task: raises its exception"""
+    s = st
+    err = s.readz('task_exception', RUN_SIM)
+    import asyncio as _aio
+    outs = []
+    for cls, cond in (('CancelledError', calls.inst_of(Val.ref(err), _aio.CancelledError)),
+                      ('StoredException', And(Not(calls.inst_of(Val.ref(err), _aio.CancelledError)), calls.inst_of(Val.ref(err), Exception)))):
+        s2 = s.copy(); s2.assume(is_exception(err), cond)
+        outs.append((s2, Raise(PExc(cls, val=err, where='callee'))))
+    return outs
+
+
+def run_await_task(ex, node, st):
+    """`await task` in the collecting loop: the task has ended or ends now; its exception, if any, is raised here"""
+    import asyncio as _aio
+    t = Val.ref(to_val(st.env['task'], st))
+    s = run_env(ex, st); s.assume(s.readz('task_done', t))
+    err = s.readz('task_exception', t)
+    outs = []
+    a = s.copy(); a.assume(err == Val.VNone, Not(s.readz('task_cancelled', t))); outs.append((a, P_NONE))
+    b = s.copy(); b.assume(s.readz('task_cancelled', t)); b.label('task:cancelled')
+    outs.append((b, Raise(PExc('CancelledError', val=Val.Obj(fresh('exc', IntSort())), where='callee'))))
+    for cls, cond in (('CancelledError', calls.inst_of(Val.ref(err), _aio.CancelledError)),
+                      ('StoredException', And(Not(calls.inst_of(Val.ref(err), _aio.CancelledError)), calls.inst_of(Val.ref(err), Exception)))):
+        d = s.copy(); d.assume(is_exception(err), Not(s.readz('task_cancelled', t)), cond); d.label(f'task:{cls}')
+        if cls == 'StoredException' and 'tnum' in d.env:
+            # ghost: position (0 = simulation task) of the first task seen to have failed
+            cur = as_kind(d.env['tnum'], INT, d) + 1
+            d.ghost['first_failed'] = If(d.ghost['first_failed'] < 0, cur, d.ghost['first_failed'])
+        outs.append((d, Raise(PExc(cls, val=err, where='callee'))))
+    return outs
+
+
+def abort_in_run(ex, e, st):
+    """circuit.abort(asyncio.CancelledError('shutdown')): contract of Circuit.abort (C09)"""
+    import asyncio as _aio
+    st = st.copy()
+    x = fresh('exc', IntSort()); st.assume(calls.inst_of(x, _aio.CancelledError), calls.inst_of(x, BaseException))
+    ex.emit(st, rec('abort', Val.Obj(CIRC), Val.Obj(x)))
+    old = st.readz('_error', CIRC)
+    st.heap['_error'] = Store(st.comp('_error', Val), CIRC, If(old != Val.VNone, old, Val.Obj(x)))
+    st.havoc_field('cancel_requested')
+    return [(st, P_NONE)]
+
+
+def for_rest(ex, s, st, it):
+    """for task in all_tasks[1:]: the supporting tasks"""
+    from pyvc import loops
+    n = st.ghost['n_tasks']; j = Int('j!fr')
+    return loops.for_seq(ex, s, st, PSeq(z3.Lambda([j], Val.Obj(sup_task(j + 1))), n - 1, 'val'))
+
+
+for_rest.no_iter = True
+
+
+def for_collect(ex, s, st, it):
+    """for tnum, task in enumerate(all_tasks, start=-1)"""
+    from pyvc import loops
+    n = st.ghost['n_tasks']; j = Int('j!fc')
+    arr = z3.Lambda([j], If(j == 0, Val.Obj(RUN_SIM), Val.Obj(sup_task(j))))
+    return loops.for_seq(ex, s, st, PSeq(arr, n, 'val'), item_of=lambda i: PTuple([ZV('int', i - 1), ZV('val', If(i == 0, Val.Obj(RUN_SIM), Val.Obj(sup_task(i))))]))
+
+
+def first_error(S, k):
+    """the exception of the first task (in the order simulation task, supporting #0, #1, ...) among the first k that failed with an Exception"""
+    import asyncio as _aio
+    def failed(i):
+        t = If(i == 0, RUN_SIM, sup_task(i)); e = S.whole('task_exception')[t]
+        return And(Not(S.whole('task_cancelled')[t]), e != Val.VNone, is_exception(e), calls.inst_of(Val.ref(e), Exception),
+                   Not(calls.inst_of(Val.ref(e), _aio.CancelledError)))
+    return failed
+
+
+for_collect.no_iter = True
+
+
+@contract('run', qual='edzed.simulator:run', modifies=tuple(dict.fromkeys(ENV_FIELDS + ('_simtask',))), params={'coroutines': Seq('val')})
+def _run(c):
+    import asyncio as _aio
+    n = c.arg('coroutines').n
+    c.requires('the_simulation_has_not_been_started', c.pre('_simtask', CIRC) == Val.VNone)
+    c.requires('error_is_none_or_an_exception', Or(c.pre('_error', CIRC) == Val.VNone, is_exception(c.pre('_error', CIRC))))
+    c.raises('RuntimeError', when=n > 0, unchanged=False, label='the_simulation_task_did_not_start')
+    c.raises('StoredException', unchanged=False, label='the_first_failure_is_raised')
+    c.raises('StoredBaseException', when=n == 0, unchanged=False, label='non_exception_error_of_the_simulation')
+    if not c.verifying: return
+    i = Int('i!rn')
+    tk = lambda post, k: If(k == 0, RUN_SIM, sup_task(k))
+    failed = lambda post, k: first_error(post, k)(k)
+    all_done = lambda post: Implies(n > 0, ForAll([i], Implies(And(0 <= i, i <= n), post.f('task_done', tk(post, i)))))
+    c.ensures('every_task_has_ended', all_done(c.T))
+    c.ensures('returns_normally_only_if_no_task_failed', Implies(n > 0, ForAll([i], Implies(And(0 <= i, i <= n), Not(failed(c.T, i))))))
+    def on_failure(post, exc):
+        # the simulation's error first, otherwise the error of the first failing supporting task
+        w = Int('w!rn')
+        early = post.g('n_tasks') == 0           # the simulation task ended before the supporting tasks were created
+        return [If(early, post.f('task_done', RUN_SIM), all_done(post)),
+                If(early, exc == post.f('task_exception', RUN_SIM),
+                   Implies(n > 0, Exists([w], And(0 <= w, w <= n, failed(post, w), exc == post.whole('task_exception')[tk(post, w)],
+                                                  ForAll([i], Implies(And(0 <= i, i < w), Not(failed(post, i))))))))]
+    c.out.raises[1].ensures = on_failure
+    def expected(k, r, st):
+        fn = z3.simplify(Rec.fn(r)).as_string()
+        if fn == 'cancel':
+            return [('only_supporting_tasks_are_cancelled_directly', And(Rec.recv(r) != Val.Obj(RUN_SIM), Not(st.readz('task_done', Val.ref(Rec.recv(r))))))]
+        if fn == 'abort':
+            return [('the_simulation_is_stopped_through_abort_with_a_cancellation',
+                     And(Rec.recv(r) == Val.Obj(CIRC), Not(st.readz('task_done', RUN_SIM)), Val.is_Obj(Rec.a0(r)),
+                         calls.inst_of(Val.ref(Rec.a0(r)), _aio.CancelledError)))]
+        if fn in ('create_supporting_tasks', 'run_forever'): return []
+        return [('no_other_call', BoolVal(False))]
+    c.expect_trace(expected, None, normal_len=None, predicate=True)
+
+
+def inv_run_cancel(lc):
+    st = lc.st; i = Int('i!rc')
+    return [('n_tasks', st.st.ghost['n_tasks'] == lc.entry.st.ghost['n_tasks'])]
+
+
+def inv_run_collect(lc):
+    st = lc.st; g = st.st.ghost; i = Int('i!rl')
+    n = g['n_tasks']
+    re = to_val(lc.local('run_error'), st.st)
+    tk = lambda k: If(k == 0, RUN_SIM, sup_task(k))
+    failed = first_error(st, None)
+    return [('visited_tasks_have_ended', ForAll([i], Implies(And(0 <= i, i < lc.i), st.f('task_done', tk(i))))),
+            ('no_error_so_far_means_no_visited_task_failed', Implies(re == Val.VNone, And(g['first_failed'] < 0, ForAll([i], Implies(And(0 <= i, i < lc.i), Not(failed(i))))))),
+            ('run_error_is_the_first_failure_so_far', Implies(re != Val.VNone,
+                                                         And(0 <= g['first_failed'], g['first_failed'] < lc.i, failed(g['first_failed']),
+                                                             re == st.whole('task_exception')[tk(g['first_failed'])],
+                                                             ForAll([i], Implies(And(0 <= i, i < g['first_failed']), Not(failed(i))))))),
+            ('n_tasks', And(n == lc.entry.st.ghost['n_tasks'], n >= 2))]
+
+
+def run_note_error(ex, st, attr, ref): pass
+
+
+def verify_run(run):
+    G = {'n_tasks': IntVal(0), 'first_failed': IntVal(-1)}
+    run.verify('run', ghost=G,
+               invariants={'for task in all_tasks[1:]': inv_run_cancel, 'for (tnum, task) in enumerate(all_tasks, start=-1)': inv_run_collect},
+               calls={'get_circuit': run_get_circuit, '_TerminatingSignal': run_terminating_signal, 'circuit.run_forever': run_forever_coro,
+                      'asyncio.create_task': run_create_simtask, 'all_tasks.extend': run_extend, 'circuit.abort': abort_in_run, 'simtask.done': task_pred('task_done'),
+                      'task.done': task_pred('task_done'), 'simtask.result': run_result_call,
+                      'for:for task in all_tasks[1:]': for_rest, 'for:for (tnum, task) in enumerate(all_tasks, start=-1)': for_collect,
+                      'add_note': lambda ex, e, st: [(st, P_NONE)]},
+               hooks={'with': run_with_signal, 'opaque_fstrings': True,
+                      'await': awaits({'asyncio.sleep(0)': run_sleep0, 'asyncio.wait(*': run_wait_first, 'task': run_await_task,
+                                       'circuit.run_forever()': lambda ex, node, st: ex.ev(node, st)})})
